@@ -329,6 +329,9 @@ mod worker {
             self.open_and_send_settings().await?;
 
             loop {
+                #[cfg(wtransport_verif)]
+                crate::verif::loop_iter();
+
                 tokio::select! {
                     result = Self::accept_uni(&self.quic_connection,
                                               &ready_uni_h3_streams.0,
